@@ -217,8 +217,16 @@ class NetlistSimplifyMixin:
     def _keep_dangling(self, cpt, keep_nodes):
 
         for node in cpt.nodes:
-            if node.is_dangling and node.name in keep_nodes:
+            if not node.is_dangling:
+                continue
+            if node.name in keep_nodes:
                 return True
+            # Open-circuit components are not counted as connections
+            # but they observe the node voltage; removing the last
+            # component attached to the node would leave it floating.
+            for cpt1 in node.connected:
+                if cpt1 is not cpt and cpt1.type == 'O':
+                    return True
 
         return False
 
